@@ -359,6 +359,8 @@ func srtSeeds() []*Seed {
 		mk("publish-standard", "#!::r=cam,m=publish,u=user,s=pass,h=host,t=stream", true, false, true),
 		mk("read-standard", "#!::m=request,r=cam/sub", true, false, true),
 		mk("invalid-streamid", "x", true, false, true),
+		mk("action-only-publish", "publish", true, false, true),
+		mk("action-only-read-standard", "#!::m=request", true, false, true),
 		mk("no-streamid", "", true, false, true),
 		mk("publish-encrypted", "publish:cam", true, true, true),
 	}
